@@ -466,10 +466,31 @@ func clDecodeItemDiscipline(c *Ctx) {
 			}
 		}
 	}
-	if len(reads) < 2 {
-		undecidedf("DecodeItem: expected header and payload reads via io.ReadFull, found %d", len(reads))
-	}
 	cnt := counter{}
+	// every use of the stream is a FULL read: a plain Read may return fewer
+	// bytes without an error (buffer boundaries), which desynchronises framing
+	rd := ssa.Value(fn.Params[3])
+	for _, r := range referrersOf(rd) {
+		in, ok := r.(ssa.Instruction)
+		if !ok {
+			continue
+		}
+		if _, isDbg := in.(*ssa.DebugRef); isDbg {
+			continue
+		}
+		full := false
+		if call, isCall := in.(*ssa.Call); isCall {
+			if f := call.Call.StaticCallee(); f != nil && (f.String() == "io.ReadFull" || f.String() == "io.ReadAtLeast") && call.Call.Args[0] == rd {
+				full = true
+			}
+		}
+		c.Check(full, fn, in, cnt.in(fn, "stream is consumed only through io.ReadFull"),
+			"the length prefix or payload is read with a call that may return fewer bytes than requested without an error: a frame straddling a buffer boundary is misread and the rest of the shard is garbage")
+	}
+	if len(reads) < 2 {
+		c.Check(false, fn, nil, "header and payload are read with io.ReadFull", "fewer than two full reads found")
+		return
+	}
 	for _, ret := range fi.Returns() {
 		if len(ret.Results) != 3 {
 			undecidedf("DecodeItem: unexpected result arity")
